@@ -28,10 +28,13 @@ pub fn respond(line: &str) -> String {
         "disasop" => disas::disasop(rest),
         "disasinst" => disas::disasinst(rest),
         "disasbin" => disas::disasbin(rest),
+        "disasraw" => disas::disasraw(rest),
         "dismain" => disas::dismain(rest),
         "loadasm" => disas::loadasm(rest),
         "lift" => lift::lift(rest),
         "idmut" => reflect::idmut(rest),
+        "conv" => crate::glue_operand::conv(rest),
+        "unwrapx" => crate::glue_operand::unwrapx(rest),
         "loadbin" => load::loadbin(rest),
         _ => "bad-request".to_string(),
     }
